@@ -1,9 +1,10 @@
 """C08 -- outgoing session ids count 1..0xFFFF per destination; reboot flag clears on wrap."""
 import someip.sd as SD
 from contracts import spec_sd as SS
+from contracts import c17 as C17
 from contracts.common import gen_addr
 
-FUNCTIONS = ["someip.sd._SessionStorage.assign_outgoing"]
+FUNCTIONS = ["someip.sd._SessionStorage.assign_outgoing", "someip.sd.ServiceDiscoveryProtocol.send_sd", "someip.service.SimpleEventgroup._notify_single"]
 
 ASSUMPTIONS = [
     "representation invariant of the outgoing table: every stored id is in 1..0xFFFF (established by the default (True, 1), preserved: obligation map-invariant[st.outgoing])",
@@ -51,7 +52,7 @@ def canary_wrap_keeps_flag(vc):
     vc.check_eq(SS.next_session(cur)[0], cur[0], "canary")
 
 
-HARNESSES = SS.SEND_SD_OBLIGATIONS + [
+HARNESSES = SS.SEND_SD_OBLIGATIONS + [C17.ob_notify_single] + [
     SS.ob_assign_outgoing_refines,
     ob_lemma_sequence_base,
     ob_lemma_sequence_step,
